@@ -3,7 +3,7 @@ Theorems: coq/Props/C05.v.  Correspondence: witness rules w_i :- not not &del{de
 every horizon, w_i(k) iff LDL.dsat (extracted from Coq) of delta_i at k; paths in the documented normal form (iteration only over
 step-consuming bodies), atoms with and without arguments as test-then-step; plus constraints over &del atoms vs Oracle.tsm_enum."""
 import json
-import gen, s4, lang, thstruct
+import gen, s4, lang, thstruct, meta
 from props import c01, c03
 
 PROP_FILE = 'Props/C05.v'
@@ -89,6 +89,9 @@ def run(ctx):
     res2 = c01.summarize(ctx, progs, recs2, H2, maxbits, 'C05')
     # structural correspondence: the operational model with the dynamic layer (Model/BodyTheoryFull.v, Dia / Box over the regenerated construction
     # tables) and Theory.translate emit the same constraints, event by event, for programs with &del atoms
+    # atoms with arguments in path expressions and formulas: the programs with their atoms renamed against the programs themselves
+    rcex, rnon = meta.renaming_cex(ctx, [p for _, p in progs][:40 if ctx.quick else 200], 3, 'C05', amap=meta.AMAP_DEL)
+    cex += rcex
     scs = [fs for fs in thstruct.cases(ctx, 120 if ctx.quick else 500) if any(f[0] == 'DEL' for _, f in fs)]
     srecs = thstruct.compare(ctx, scs, H)
     sstat = {}
